@@ -34,6 +34,9 @@ type DummyAudioFilter struct {
 	audioCount int
 }
 
+// dummyAudioMaxCatchUpMs 两个视频消息之间最多补齐这么长时间的静音包，单位毫秒
+const dummyAudioMaxCatchUpMs = 10 * 1000
+
 // NewDummyAudioFilter 检测输入的rtmp流中是否有音频，如果有，则原样返回；如果没有，则制造静音音频数据叠加在rtmp流里面
 //
 // @param waitAudioMs 等待音频数据时间，如果超出这个时间还没有接收到音频数据，则开始制造静音数据
@@ -145,14 +148,25 @@ func (filter *DummyAudioFilter) handleDummyStage(msg base.RtmpMsg) {
 		filter.onPopProxy(msg)
 		filter.prevAudioTs = ats
 	} else {
-		for {
-			ats := filter.prevAudioTs + filter.calcAudioDurationMs()
-			if ats > msg.Header.TimestampAbs {
-				break
-			}
+		// 视频时间戳向前跳跃超过阈值时，不再逐个补齐中间的静音包（跳跃到uint32最大值附近时循环甚至无法结束），
+		// 而是以当前视频时间戳为基准重新开始，保证处理单个消息的耗时有上限
+		if msg.Header.TimestampAbs > filter.prevAudioTs && msg.Header.TimestampAbs-filter.prevAudioTs > dummyAudioMaxCatchUpMs {
+			ats := msg.Header.TimestampAbs
 			amsg := filter.makeOneAudio(ats)
 			filter.onPopProxy(amsg)
+			filter.onPopProxy(msg)
 			filter.prevAudioTs = ats
+			return
+		}
+		for {
+			// 用uint64计算，避免prevAudioTs接近uint32最大值时回绕
+			ats := uint64(filter.prevAudioTs) + uint64(filter.calcAudioDurationMs())
+			if ats > uint64(msg.Header.TimestampAbs) {
+				break
+			}
+			amsg := filter.makeOneAudio(uint32(ats))
+			filter.onPopProxy(amsg)
+			filter.prevAudioTs = uint32(ats)
 		}
 		filter.onPopProxy(msg)
 	}
